@@ -22,11 +22,9 @@ Definition stmt_ok (first : bool) (s : tstmt) : bool :=
   match ts_var s with Some v => var_lex_valid v | None => first end.
 Definition stage_ok (l : list tstmt) : bool :=
   match l with [] => false | s :: r => stmt_ok true s && forallb (stmt_ok false) r end.
-(* the text before the final '.' of a body without transform: an atom, a function application,
-   a variable, a name constant (then the printer writes " .") or another leaf constant (number,
-   float, string, byte string, time, duration, an empty list / map / struct); an (in)equality
-   whose right side is a compound constant (pair, non-empty list / map / struct) is outside
-   this proof *)
+(* the text before the final '.' of a body without transform: an atom, or the right side of an
+   (in)equality - a function application, a variable, a name constant (then the printer writes
+   " ."), or any other constant. Always true on the domain (end_ok_all). *)
 Definition end_ok (p : premise) : bool :=
   match p with
   | LAtom _ | LNeg _ => true
@@ -42,12 +40,21 @@ Fixpoint last_end_ok (l : list premise) : bool :=
   | [] => true
   | p :: r => match r with [] => end_ok p | _ :: _ => last_end_ok r end
   end.
+Lemma end_ok_all : forall p, end_ok p = true.
+Proof.
+  intros [a|a|l r|l r]; try reflexivity; destruct r as [c|x|fn args]; try reflexivity;
+    destruct c as [t s n|t n f g]; cbn [end_ok ctype_of leaf_dot_ok]; try apply orb_true_r;
+    destruct (ctype_eqb t NameT); reflexivity.
+Qed.
+Lemma last_end_ok_all : forall ps, last_end_ok ps = true.
+Proof.
+  induction ps as [|p ps IH]; [reflexivity|]. cbn [last_end_ok]. destruct ps; [apply end_ok_all|exact IH].
+Qed.
 Definition clause_ok (c : clause) : bool :=
   catom_ok (cl_head c) &&
   match cl_prem c with
   | None => is_nil (cl_trans c)
   | Some ps => negb (is_nil ps) && forallb premise_ok ps && forallb stage_ok (cl_trans c)
-               && (negb (is_nil (cl_trans c)) || last_end_ok ps)
   end.
 
 (* ---- fuel -------------------------------------------------------------------------- *)
